@@ -178,6 +178,16 @@ pub fn exhaustive_count(id: &str, tier: &str) -> u64 {
 
 pub fn generate(id: &str, tier: &str, r: u64, rng: &mut Rng) -> Value {
     let ex = exhaustive_count(id, tier);
+    // scenario families that need the system-call simulator inside otherwise history-driven checks
+    if r >= ex {
+        let k = (r - ex) % 16;
+        match (id, k) {
+            ("C18", 3) | ("C18", 11) | ("C01", 7) => return crate::sysim::generate_family("reflink", id, tier, rng),
+            ("C14", 5) | ("C14", 13) => return crate::sysim::generate_family("abandon", id, tier, rng),
+            ("C16", 9) => return crate::sysim::generate_family("same-content", id, tier, rng),
+            _ => {}
+        }
+    }
     match id {
         "C02" => gen::gen_c02(rng),
         "C05" | "C10" if r < ex => {
